@@ -46,7 +46,9 @@ ASSUMPTIONS = ['kernel bounds: |state| < 2^62 for integers; finite doubles with 
                'in the store-level scenario the split variable takes solver-'
                'chosen concrete values from {0,1,4,7,-3} (its full range is the '
                'kernel\'s business); other values symbolic']
-BOUNDS = {'quick': 'mother with 9 variables (set, split, zero, set_value, '
+BOUNDS = {'quick': 'mother with 11 variables (two declared only through the '
+                   'glob schema of the dividing process outside the '
+                   'compartment; set, split, zero, set_value, '
                    'null+default, split_dict, user divider with topology, user '
                    'divider with config, branch-level divider), daughters with '
                    'explicit or copied processes, symbolic presence of explicit '
@@ -102,7 +104,12 @@ class Holder(Process):
 
 class Divider(Process):
     def ports_schema(self):
-        return {'agents': {'*': schema()}}
+        # 'env' is declared for every agent only here, through the glob
+        # schema of the store holding the compartments: no process inside a
+        # compartment declares it
+        return {'agents': {'*': dict(schema(), env={
+            'vol': {'_default': 2, '_divider': 'split'},
+            'lab': {'_default': 0}})}}
 
     def next_update(self, timestep, states):
         if not CTX['queue']:
@@ -203,12 +210,18 @@ def part_store(ctx, cfg):
         'setv': vals['setv'], 'nul': vals['nul'], 'sd': dict(sd),
         'topo': vals['topo'], 'other': vals['other'], 'conf': vals['conf'],
         'mut': mut, 'br': {'p': vals['p'], 'q': vals['q']}}}
+    env_vol = [6, 3][ctx.choice('ev', 2)]
+    env_lab = ctx.int('v', -9, 9)
+    mother_state['env'] = {'vol': env_vol, 'lab': env_lab}
+    env_explicit = {}
+    if ctx.flag('exenv'):
+        env_explicit['lab'] = ctx.int('xv', -2, 2)
     holder = Holder()
     # explicit initial state entries for daughter 0, symbolic presence
     explicit = {}
     for var in ('set', 'split', 'nul'):
         if ctx.flag('ex'):
-            explicit[var] = ctx.int('xv', 20, 29)
+            explicit[var] = ctx.int('xv', -2, 2)
     if explicit:
         ctx.goal('explicit initial state overrides a share')
 
@@ -220,6 +233,8 @@ def part_store(ctx, cfg):
                 dd['processes'] = {'holder': Holder()}
                 dd['topology'] = {'holder': {'s': ('s',)}}
             dd['initial_state'] = {'s': dict(explicit)} if i == 0 else {}
+            if i == 0 and env_explicit:
+                dd['initial_state']['env'] = dict(env_explicit)
             ds.append(dd)
         return ds
     if cfg['copied']:
@@ -281,6 +296,17 @@ def part_store(ctx, cfg):
                   and abs(s0['split'] - s1['split']) <= 1, sig='conserved-1',
                   info=info)
     ctx.claim('C11.shares', AND(sh), sig='shares', info=info)
+    # variables declared only by the glob schema of an outside process
+    e0, e1 = ag['m0'].get('env', {}), ag['m1'].get('env', {})
+    ok_env = all(set(x) == {'vol', 'lab'} for x in (e0, e1))
+    if ok_env:
+        ok_env = AND(EQ(e0['lab'], env_explicit.get('lab', env_lab)),
+                     EQ(e1['lab'], env_lab),
+                     e0['vol'] + e1['vol'] == env_vol,
+                     abs(e0['vol'] - e1['vol']) <= 1)
+    ctx.claim('C11.shares', ok_env, sig='shares-glob-declared',
+              info=lambda: dict(mother_env=mother_state['env'],
+                                explicit=env_explicit, m0=e0, m1=e1))
     for var in ('set', 'topo', 'conf'):
         ctx.observe(var + '0', s0[var])
         ctx.observe(var + '1', s1[var])
@@ -317,6 +343,7 @@ def part_store(ctx, cfg):
     if two_gen:
         ctx.goal('second generation')
         explicit.clear()
+        env_explicit.clear()
         CTX['queue'].append({'_divide': {'mother': 'm1',
                                          'daughters': daughters('m1')}})
         m1 = get(e.state.get_value(), pre)['agents']['m1']['s']
